@@ -11,12 +11,15 @@ def main():
     args = sys.argv[1:]
     allp = '--all-props' in args
     nokani = '--no-kani' in args
+    outp = None
+    if '--out' in args:
+        i = args.index('--out'); outp = args[i + 1]; del args[i:i + 2]
     names = [a for a in args if not a.startswith('--')] or sorted(d for d in os.listdir(os.path.join(VERIF, 'seeded')) if os.path.isdir(os.path.join(VERIF, 'seeded', d)))
     wt = tempfile.mkdtemp(prefix='cel-mut-')
     os.rmdir(wt)
     subprocess.check_call(['git', '-C', '/repo', 'worktree', 'add', '-q', '--detach', wt, 'HEAD'])
     bd = tempfile.mkdtemp(prefix='cel-mut-build-')
-    resp = os.path.join(VERIF, 'seeded', 'RESULTS.json')
+    resp = outp or os.path.join(VERIF, 'seeded', 'RESULTS.json')
     results = json.load(open(resp)) if os.path.exists(resp) else {}
     try:
         for n in names:
